@@ -137,6 +137,7 @@ type Enc struct {
 	unlockSeen map[string]int
 	monOwnerV  *Val
 	sharedSet  map[string]bool
+	roArrays   []roArray
 }
 
 type lvalue struct {
@@ -284,6 +285,28 @@ func (e *Enc) lookupLocal(c *Ctx, name string) (Val, bool) {
 		return Val{}, false
 	}
 	as := e.cellName[name]
+	if i := strings.Index(name, "__"); i > 0 {
+		// name__N: the N-th local of that name in source order
+		if n, err := strconv.Atoi(name[i+2:]); err == nil {
+			all := append([]*ssa.Alloc{}, e.cellName[name[:i]]...)
+			num := func(a *ssa.Alloc) int { n, _ := strconv.Atoi(strings.TrimPrefix(a.Name(), "t")); return n }
+			all = nil
+			for _, b := range e.fn.Blocks {
+				for _, ins := range b.Instrs {
+					if a, ok := ins.(*ssa.Alloc); ok && a.Comment == name[:i] {
+						all = append(all, a)
+					}
+				}
+			}
+			sort.Slice(all, func(a, b int) bool { return num(all[a]) < num(all[b]) })
+			if n >= 1 && n <= len(all) && c.St != nil {
+				if _, ok := c.St.m[cellKey(all[n-1], 0)]; ok {
+					return e.cellGet(c.St, all[n-1]), true
+				}
+			}
+			return Val{}, false
+		}
+	}
 	if c.St == nil {
 		return Val{}, false
 	}
@@ -1225,6 +1248,23 @@ func (e *Enc) block(b *ssa.BasicBlock) {
 						}
 					}
 				}
+			}
+		}
+		// read-only slice literals keep their contents
+		for _, ro := range e.roArrays {
+			r, ok := e.regs[ro.a]
+			if !ok {
+				continue
+			}
+			for j, so := range flatten(ro.elemT) {
+				k := elemKey(ro.elemT, j)
+				s2 := "(Array Int (Array Int " + so + "))"
+				if _, had := li.entry.m[k]; !had {
+					continue
+				}
+				nm := e.heapKey(st, k, s2)
+				om := li.entry.m[k]
+				e.assume(g, eq(app("select", nm, r.C[0]), app("select", om, r.C[0])))
 			}
 		}
 		// type facts for havoced cells
